@@ -581,3 +581,47 @@ Proof.
   - apply query_get_presented. intros E. rewrite E in Ho. cbn in Ho. inversion Ho; subst a. discriminate Hv.
   - cbv zeta. split; [exact Ho|]. split; [exact Hv|]. exists b. auto.
 Qed.
+
+(* ================================================================== reading the clock during a request *)
+(* The answer depends on the clock only through the freshness test, and that test only gets
+   stricter as time passes. So if the service read its clock anywhere between two instants, its
+   answer is the model's answer for one of the two ends (used by the timed sequences, whose
+   real-time margins are small). *)
+Lemma too_old_mono a b t : (a <= b)%Z -> too_old a t = true -> too_old b t = true.
+Proof. unfold too_old. rewrite !Z.gtb_ltb, !Z.ltb_lt. lia. Qed.
+
+Lemma valid_signature_antitone a b uri sg ts secret : (a <= b)%Z ->
+  valid_signature b uri sg ts secret = true -> valid_signature a uri sg ts secret = true.
+Proof.
+  intros Hab. unfold valid_signature. destruct sg as [| |tg]; auto.
+  destruct (is_nil uri || is_nil ts || is_nil secret); auto. destruct (go_parse uri); auto.
+  destruct (parse_int ts) as [t|]; auto.
+  destruct (too_old a t) eqn:Ea; [rewrite (too_old_mono a b t Hab Ea); auto|].
+  destruct (too_old b t); [discriminate | auto].
+Qed.
+
+Lemma serve_same_verdict c a b ep q :
+  (forall uri, valid_signature a uri (q_sig q) (q_ts q) (c_secret c) = valid_signature b uri (q_sig q) (q_ts q) (c_secret c)) ->
+  serve c a ep q = serve c b ep q.
+Proof.
+  intros H. destruct ep; unfold serve, gate_signature, oauth_start; rewrite ?H; try reflexivity.
+  destruct (q_outer q); [|reflexivity]. destruct (q_nested q) as [n|]; [rewrite (H n)|]; reflexivity.
+Qed.
+
+Theorem serve_clock_bracket c lo mid hi ep q :
+  (lo <= mid)%Z -> (mid <= hi)%Z ->
+  serve c mid ep q = serve c lo ep q \/ serve c mid ep q = serve c hi ep q.
+Proof.
+  intros H1 H2.
+  (* only one signed text is judged per request *)
+  set (u := match ep with EpStart => match q_nested q with Some n => n | None => [] end | _ => q_uri q end).
+  assert (Hdep : forall x y, valid_signature x u (q_sig q) (q_ts q) (c_secret c) = valid_signature y u (q_sig q) (q_ts q) (c_secret c) ->
+                 serve c x ep q = serve c y ep q).
+  { intros x y E. subst u. destruct ep; unfold serve, gate_signature, oauth_start; rewrite ?E; try reflexivity.
+    destruct (q_outer q); [|reflexivity]. destruct (q_nested q) as [n|]; [rewrite E|]; reflexivity. }
+  destruct (valid_signature mid u (q_sig q) (q_ts q) (c_secret c)) eqn:Em.
+  - left. apply Hdep. rewrite Em. symmetry. exact (valid_signature_antitone lo mid _ _ _ _ H1 Em).
+  - right. apply Hdep. rewrite Em. symmetry.
+    destruct (valid_signature hi u (q_sig q) (q_ts q) (c_secret c)) eqn:Eh; [|reflexivity].
+    rewrite (valid_signature_antitone mid hi _ _ _ _ H2 Eh) in Em. discriminate.
+Qed.
